@@ -1,9 +1,9 @@
 SPECIFICATION Spec
 CONSTANTS
   Cats = {"runtime", "instructor", "complete"}
-  Prios = {"none", "low"}
+  Prios = {"none"}
   Trigs = {FALSE, TRUE}
-  Muteds = {FALSE, TRUE}
+  Muteds = {FALSE}
   Kinds = {"Mistake", "Compliment"}
   Elses = {FALSE}
   Labels = {"a"}
